@@ -4,7 +4,7 @@
 set -u
 D=$(realpath "$1")
 WT=$(mktemp -d /tmp/sv-XXXXXX)
-export CARGO_TARGET_DIR=/tmp/sv-target CARGO_NET_OFFLINE=true
+export CARGO_TARGET_DIR="$WT/target" CARGO_NET_OFFLINE=true
 git -C /repo worktree add -q --detach "$WT" HEAD || exit 3
 cleanup() { git -C /repo worktree remove --force "$WT" >/dev/null 2>&1; rm -rf "$WT"; }
 trap cleanup EXIT
